@@ -37,17 +37,46 @@ def main():
     root = Path(tempfile.mkdtemp(prefix="xvlib-"))
     out = []
     try:
-        mods = [cfgbuild.load_library(lib, root) for lib in data["libs"]]
+        mods = []
+        for lib in data["libs"]:
+            try:
+                mods.append(cfgbuild.load_library(lib, root))
+            except Exception as e:
+                # the tree under test refuses the class definitions of a generated library: every case on it is an
+                # unbuildable case (an observation about that tree), not a failure of the worker
+                mods.append(RuntimeError(f"library cannot be loaded: {type(e).__name__}: {e}"[:300]))
+        flagged = set()
+        tables = {}
         for case in data["cases"]:
             mod = mods[case["lib"]]
-            rec = {"lines": [], "impl": [], "error": None}
+            lib = data["libs"][case["lib"]]
+            rec = {"lines": [], "impl": [], "error": None, "argsrc": {}}
+            if isinstance(mod, Exception):
+                rec["error"] = str(mod)
+                out.append(rec)
+                continue
+            if case["lib"] not in flagged:
+                # once per library: the flags the model derives from every declaration against the real `Argument` objects
+                flagged.add(case["lib"])
+                try:
+                    rec["declflags"] = cfgbuild.library_flags(mod, lib)
+                    table, idx = cfgbuild.class_table(mod, lib)
+                    # the key names this very table (a library and its extension by one declaration share their package name)
+                    import hashlib
+                    key = lib["pkg"] + ":" + hashlib.md5(json.dumps(table, sort_keys=True).encode()).hexdigest()[:10]
+                    tables[case["lib"]] = (idx, key)
+                    rec["classtable"] = {"op": "lib", "key": key, "table": table}
+                except Exception as e:
+                    rec["declflags"] = {"error": f"{type(e).__name__}: {e}"}
             env = {}
             try:
                 for st in case["steps"]:
                     if st["do"] == "build":
                         env[st["as"]] = cfgbuild.build_graph(mod, st["graph"])
                     elif st["do"] == "graph":
-                        rec["lines"].append({"op": "graph", "nodes": cfgbuild.model_graph(env[st["of"]])})
+                        tidx, tkey = tables.get(case["lib"], (None, None))
+                        rec["lines"].append({"op": "graph", "lib": tkey,
+                                             "nodes": cfgbuild.model_graph(env[st["of"]], lib=lib, stats=rec["argsrc"], table_idx=tidx)})
                         rec["impl"].append({"ok": True})
                     elif st["do"] == "op":
                         objs = env[st["on"]]
